@@ -10,9 +10,22 @@ rendered with focus=True, which letter is drawn in the clicked cell).
 
 Leaves: 'S' selectable / 'U' unselectable box+flow widgets that fill their area with their own letter
 (upper case = selectable), hand every key back except 'h' (a selectable leaf consumes 'h'), and 'E', a
-real urwid.Edit (cursor, pref_col, consumes characters and some arrows).  The "focus path" a leaf is
+real urwid.Edit (cursor, pref_col, consumes characters and some arrows); and *decorated* leaves whose decoration
+decides selectability differently from the widget it wraps: 'D' = WidgetDisable(selectable leaf) and 'W' =
+AttrMap(WidgetDisable(selectable leaf)) are NOT selectable although their base_widget is, 'A' = AttrMap(selectable
+leaf) is selectable ("selectable child" always means child.selectable(), the child being what sits in .contents, never
+child.base_widget -- the container shortcut container[position] strips decorations).  The "focus path" a leaf is
 tested against is computed *at the moment of the call* from the root by following each container's
 focus_position through the reference tree.
+
+Command maps: every container reads key bindings from self._command_map, by default the one shared urwid.command_map.
+The operation "cmap" gives ONE Pile / Columns / ListBox a private map the documented way (w._command_map =
+w._command_map.copy()) and edits the copy ('vi': j/k = cursor down/up and the arrows unbound; 'hl': j/k = cursor
+right/left; 'clear': clear_command of two commands) -- or, the other way round ('shared'), leaves the copy alone and
+edits the shared map.  The reference keeps a plain dict per map (spec.container_focus.DEFAULT_COMMANDS, the documented
+defaults); "bound to no command" in the clauses below is judged on the reference maps of the containers on the focus
+path, so a binding that leaks from one map into another shows as a swallowed key / a moved focus in the *other*
+containers, and directly in the clause command-map-private.  The shared map is restored after every history.
 
 Two modes: 'A' renders the root after construction and after every operation (as a main loop does;
 clicks are only generated in this mode, on cells of the last drawn canvas); 'B' never renders before
@@ -65,7 +78,11 @@ from urwid.canvas import CanvasCache
 
 from bounded.common import Check, rng
 from spec.container_focus import (
+    COMMAND_EDITS,
+    DEFAULT_COMMANDS,
     LIST_KINDS,
+    apply_command_edits,
+    arrow_of,
     contents_len,
     flat_arrow_expectation,
     hashable,
@@ -74,10 +91,17 @@ from spec.container_focus import (
     valid_focus_positions,
 )
 
+_Command = type(urwid.CURSOR_UP)  # the Command enum (a str enum: members equal their string values)
+
 ID = "C08"
 ROOT_SIZE = (16, 12)
-LEAFS = ("S", "U", "E")
+LEAFS = ("S", "U", "E", "D", "W", "A")
+PLAIN = ("S", "U", "D", "W", "A")  # leaves that hand every key back except a selectable one's 'h'
+DECORATED = ("D", "W", "A")
 ARROWS = ("up", "down", "left", "right")
+VI_KEYS = ["j", "k"]  # plain characters, bound to nothing by default; the private command maps bind them
+CMAP_KINDS = ("Pile", "Columns", "ListBox")  # containers whose own keypress consults self._command_map
+PROBE_KEYS = [*DEFAULT_COMMANDS, "j", "k", "x", "h"]
 KEYS_FULL = ["up", "down", "left", "right", "page up", "page down", "home", "end", "x", "h"]
 KEYS_RED = ["up", "down", "left", "right", "x", "h"]
 UP = "ABCDEFGHIJKLMNOPQRSTUVWXYZ"
@@ -96,6 +120,7 @@ RULES = {
     "click-focus": "a button-1 press on a cell where leaf X is drawn raises nothing and, for every container on the way from the root to X whose child on that way reports selectable(), makes that child the container's focus",
     "focus-path-roundtrip": "set_focus_path(p) for a path p read earlier by get_focus_path() (no contents edit in between) restores p and the same focus leaf; set_focus_path of any valid path makes it a prefix of get_focus_path(); an invalid path (bad position, or continuing below a leaf) raises IndexError",
     "assignment-kept": "a valid focus_position assignment or set_focus_path that was accepted is not undone by what follows without navigating: after the next render(s) of the root and after every following key that is bound to no command, each container assigned to still reports the assigned position and that child as its focus (the path written is the path read back later), and every leaf offered such a key inside an assigned container lies under the assigned child (input follows the focus path that was written); positions *below* a ListBox on the written path are exempt (the ListBox re-chooses the focus inside the newly focused item when it completes the change: known finding KF2)",
+    "command-map-private": "after one Pile/Columns/ListBox was given a private command map (w._command_map = w._command_map.copy()) and the copy was edited through the mapping API ('vi': j/k bound to cursor down/up, up/down unbound; 'hl': j/k bound to cursor right/left, left/right unbound; 'clear': clear_command of two commands) -- or the copy left alone and the shared map edited ('shared') -- and after every later operation: the shared urwid.command_map holds exactly the reference bindings, every container answers _command_map[key] for every default key and j/k/x/h as its own reference map does (the private one where it has one, the shared one otherwise: an edit shows in the edited map only), and a CommandMap() created now holds the documented defaults; the behavioural side (an unhandled 'j' comes back unchanged from the other containers, the arrows still navigate there) is judged by unhandled-key-unchanged / arrow-selectable on the reference maps",
     "random-histories": "every clause above, evaluated at every step of seeded random histories on seeded random nestings of depth <= 3 (leaves S/U/E); non-exhaustive; failures carry the clause in `clause` and `sig`",
     "positions-enumerable": "iter(container) yields exactly the valid positions of the reference tree in order, len(container.contents) is their number, and for a Frame iter(frame.contents) yields the parts present",
 }
@@ -119,7 +144,7 @@ class Stop(Exception):
 
 
 class Node:
-    __slots__ = ("kind", "cid", "widget", "base", "kids", "parts", "sel", "name", "cctx")
+    __slots__ = ("kind", "cid", "widget", "base", "kids", "parts", "sel", "name", "cctx", "cmap")
 
     def __init__(self, kind):
         self.kind = kind
@@ -130,6 +155,7 @@ class Node:
         self.sel = False
         self.name = None
         self.cctx = None
+        self.cmap = None  # reference private command map (plain dict), None = reads the shared map
 
     def children(self):
         """position -> child node, for the valid positions of the reference tree."""
@@ -249,6 +275,8 @@ class H:
         self.paths = []
         self.last_edit_state = 0
         self.assigned = None  # [(container node, position)] of the last accepted assignment, while nothing navigated or edited since
+        self.shared_ref = dict(DEFAULT_COMMANDS)  # reference of the shared urwid.command_map
+        self.cmap_touched = False
         self.root = self.build(tree, "box")
 
     # ------------------------------------------------------------------ building
@@ -266,10 +294,20 @@ class H:
             idx = self.nleaf
             self.nleaf += 1
             letter = UP[idx % 26]
-            n.name = letter.lower() if spec == "U" else letter
-            n.sel = spec != "U"
+            n.sel = spec not in ("U", "D", "W")  # what the CHILD (the widget put into .contents) reports
+            n.name = letter if n.sel else letter.lower()
             self.by_letter[n.name] = n if idx < 26 else None
-            if spec == "E":
+            if spec in DECORATED:
+                # the decoration decides: WidgetDisable switches selectable() off whatever it wraps; AttrMap delegates
+                inner = Leaf(self, n, True)
+                n.base = inner
+                if spec == "D":
+                    n.widget = urwid.WidgetDisable(inner)
+                elif spec == "W":
+                    n.widget = urwid.AttrMap(urwid.WidgetDisable(inner), None)
+                else:
+                    n.widget = urwid.AttrMap(inner, None)
+            elif spec == "E":
                 w = TEdit("", n.name * 2)
                 w._h, w._node = self, n
                 n.base = w
@@ -540,7 +578,11 @@ class H:
         sig = ""
         if bad:
             why, sig = f"leaves {bad} rendered with focus=True are not on the focus path {[x.name or x.kind for x in ch]}", "focus-off-path"
-        elif ch[-1].is_leaf():
+        elif ch[-1].is_leaf() and ch[-1].kind not in ("D", "W"):
+            # Oracle correction: a leaf below a WidgetDisable is exempt -- WidgetDisable is documented to pass focus=False
+            # to the widget it wraps "even if it somehow does become the focus" (it can: an unselectable child is a
+            # legitimate focus, e.g. the first child of a container without selectable children); the negative side
+            # (no leaf OFF the focus path is rendered with focus) applies to it as to every leaf.
             calls = [f for n, f, _ in log if n is ch[-1]]
             if calls and not any(calls):
                 why, sig = f"focus leaf {ch[-1].name} is rendered, but only with focus=False", "focus-leaf-unfocused"
@@ -571,11 +613,21 @@ class H:
             self.op_setpath(op[1])
         elif k == "edit":
             self.op_edit(op)
+        elif k == "cmap":
+            self.op_cmap(op[1], op[2])
         else:
             raise ValueError(op)
 
+    def ref_cmd(self, n, key):
+        """The command `key` is bound to for container n, by the reference maps (None = unbound)."""
+        return (n.cmap if n.cmap is not None else self.shared_ref).get(key)
+
+    def cursor_bound(self, chain, key):
+        """Does some container on the chain bind `key` to one of the four cursor (arrow) commands?"""
+        return any(arrow_of(self.ref_cmd(n, key)) is not None for n in chain if not n.is_leaf())
+
     def op_key(self, key):
-        if urwid.command_map[key] is not None:
+        if any(self.ref_cmd(n, key) is not None for n in self.containers()) or self.shared_ref.get(key) is not None:
             self.assigned = None  # a navigation key may move any focus
         before = self.snapshot()
         chain0 = self.chain()
@@ -614,7 +666,22 @@ class H:
                 self.rec("key-delivered", got or bool(log), f"every widget on the focus path is selectable and focus leaf {leaf.name} is drawn, but keypress({key!r}) reached no leaf", "not-delivered")
         # returned value
         consumed = [n.name for n, _k, ret, _o in log if ret is None]
-        cmd = urwid.command_map[key]
+        # "bound to no command": for every container the key travels through (the focus path at the call), by that
+        # container's own reference command map -- private where it was given one, the shared one otherwise
+        # The containers the key may have travelled through: the focus path before and after the call, and -- a ListBox
+        # completes its deferred focus choice at the start of the call (module docstring), so the path before the call
+        # is not the path the input travels -- everything below a ListBox on either path.
+        via = [n for n in [*chain0, *self.chain()] if not n.is_leaf()]
+        for lb in [n for n in via if n.kind == "ListBox"]:
+            stack = [lb]
+            while stack:
+                m = stack.pop()
+                if not m.is_leaf():
+                    via.append(m)
+                    stack.extend(m.children().values())
+        cmd = next((c for c in (self.ref_cmd(n, key) for n in via) if c is not None), None)
+        if not via:
+            cmd = self.shared_ref.get(key)
         why = sig = ""
         if r is not None and r != key:
             why, sig = f"keypress({key!r}) returned {r!r}", "key-changed"
@@ -634,7 +701,7 @@ class H:
                     why, sig = f"{key!r} is bound to no command and came back, yet the focus of containers {moved} changed", "unhandled-moved-focus"
         self.rec("unhandled-key-unchanged", not why, why, sig, nontrivial=True, key=key)
         # arrows move focus only onto selectable children
-        if key in ARROWS:
+        if key in ARROWS or self.cursor_bound(chain0, key):
             problems = []
             exempt = 0
             for cid in changed:
@@ -666,7 +733,7 @@ class H:
 
     def flat_clause(self, key, before, r):
         n = self.root
-        if n.kind not in LIST_KINDS or any(k.kind not in ("S", "U") for k in n.kids):
+        if n.kind not in LIST_KINDS or any(k.kind not in PLAIN for k in n.kids):
             return
         if n.kind == "ListBox" and (self.mode != "A" or not self.lb_fits(n)):
             return
@@ -677,7 +744,10 @@ class H:
         sel = [k.sel for k in n.kids]
         if n.kids and i is None:
             return
-        want_i, want_handled = flat_arrow_expectation(n.kind, sel, i, key)
+        # the key counts as the arrow its command (in the root's own reference command map) stands for; an arrow key
+        # that the root's private map unbinds is an ordinary unhandled key: nothing moves, it comes back
+        arrow = arrow_of(self.ref_cmd(n, key))
+        want_i, want_handled = flat_arrow_expectation(n.kind, sel, i, arrow) if arrow is not None else (i if n.kids else None, False)
         try:
             got_i = n.base.focus_position if n.kids else None
         except Exception:  # noqa: BLE001
@@ -754,6 +824,70 @@ class H:
                      exc=type(err).__name__, kind=n.kind, value_type=type(val).__name__, where=_where(err))
             raise Stop
         self.rec("invalid-position", after == before, f"{lab} raised IndexError but focus state changed", "invalid-changed-state", valid=False)
+
+    # ------------------------------------------------------------------ private command maps
+    @staticmethod
+    def _edit_real(target, ref, edits):
+        """The COMMAND_EDITS entries through the public mapping API of the real CommandMap `target`; `ref` (the
+        reference dict before these edits) says which keys are there to delete."""
+        for e in edits:
+            if e[0] == "set":
+                target[e[1]] = _Command(e[2])
+            elif e[0] == "del":
+                if e[1] in ref:
+                    del target[e[1]]
+            else:
+                target.clear_command(_Command(e[1]))
+
+    def op_cmap(self, cid, variant):
+        """Container cid gets a private command map the documented way; 'vi' / 'hl' / 'clear': the copy is edited;
+        'shared': the copy is left alone and the shared urwid.command_map is edited instead (the copy must not follow)."""
+        n = self.nodes[cid]
+        self.cmap_touched = True
+        self.assigned = None
+        try:
+            private = n.base._command_map.copy()
+            n.base._command_map = private
+            n.cmap = dict(n.cmap if n.cmap is not None else self.shared_ref)
+            if variant == "shared":
+                target, ref, edits = urwid.command_map, self.shared_ref, COMMAND_EDITS["vi"]
+            else:
+                target, ref, edits = private, n.cmap, COMMAND_EDITS[variant]
+            edits = [e for e in edits if e[0] != "del" or e[1] in ref]
+            self._edit_real(target, ref, edits)
+            apply_command_edits(ref, edits)
+        except Exception as e:  # noqa: BLE001
+            self.raised("command-map-private", f"private command map ({variant}) for {n.kind}#{n.cid}", e)
+
+    def cmap_clause(self, when):
+        problems = []
+
+        def same(got, want):
+            return (got is None and want is None) or (got is not None and want is not None and str(getattr(got, "value", got)) == want)
+
+        try:
+            bad = [k for k in PROBE_KEYS if not same(urwid.command_map[k], self.shared_ref.get(k))]
+            if bad or sorted(urwid.command_map) != sorted(self.shared_ref):
+                problems.append((f"the shared urwid.command_map changed: keys {bad or sorted(set(urwid.command_map) ^ set(self.shared_ref))} answer {[urwid.command_map[k] for k in bad]}, reference {[self.shared_ref.get(k) for k in bad]}", "shared-map-changed"))
+            for n in self.containers():
+                bad = [k for k in PROBE_KEYS if not same(n.base._command_map[k], self.ref_cmd(n, k))]
+                if bad:
+                    who = "with a private map" if n.cmap is not None else "without a private map"
+                    problems.append((f"{n.kind}#{n.cid} ({who}): _command_map{bad} = {[n.base._command_map[k] for k in bad]}, reference {[self.ref_cmd(n, k) for k in bad]}",
+                                     "private-map-wrong" if n.cmap is not None else "edit-leaked-into-another-container"))
+            fresh = urwid.CommandMap()
+            bad = [k for k in PROBE_KEYS if not same(fresh[k], DEFAULT_COMMANDS.get(k))]
+            if bad or sorted(fresh) != sorted(DEFAULT_COMMANDS):
+                problems.append((f"a CommandMap() created now does not hold the documented defaults: keys {bad}", "fresh-map-not-default"))
+        except Exception as e:  # noqa: BLE001
+            self.raised("command-map-private", "reading the command maps", e)
+        seen = set()
+        for why, sig in problems:
+            if sig not in seen:
+                seen.add(sig)
+                self.rec("command-map-private", False, why, sig, when=when)
+        if not problems:
+            self.rec("command-map-private", True, nontrivial=True, when=when)
 
     # ------------------------------------------------------------------ an accepted assignment stays
     def below_listbox(self, node):
@@ -927,6 +1061,8 @@ class H:
     # ------------------------------------------------------------------ state bookkeeping
     def after_state(self, initial=False):
         self.inv("after-op" if not initial else "constructed")
+        if self.cmap_touched:
+            self.cmap_clause("after-op")
         if initial:
             self.selectable_clause(self.containers(), "right after construction")
         if self.mode == "A":
@@ -1048,6 +1184,8 @@ class H:
     def execute(self, ops):
         """Apply ops; evaluate (record) only the last one, or the initial state when ops is empty.
         Returns True when the history ran to its end."""
+        shared = urwid.command_map
+        saved = {k: shared[k] for k in shared}
         try:
             self.recording = not ops
             self.after_state(initial=True)
@@ -1060,6 +1198,13 @@ class H:
             self.final_checks()
         except Stop:
             return False
+        finally:
+            # process-global state: the shared command map goes back to what it held (whoever changed it)
+            if {k: shared[k] for k in shared} != saved:
+                for k in list(shared):
+                    del shared[k]
+                for k, v in saved.items():
+                    shared[k] = v
         return True
 
     # ------------------------------------------------------------------ operation alphabet in the current state
@@ -1067,8 +1212,16 @@ class H:
         """level 'F': full alphabet, 'R': reduced alphabet, 'O': observations only (reduced keys and clicks)."""
         if level in ("K", "k", "S", "s"):
             return self.gen_ops_focus(level)
-        full = level == "F"
+        if level == "M":  # a private command map for one container (every variant), nothing else
+            return [["cmap", n.cid, v] for n in self.containers() if n.kind in CMAP_KINDS for v in ("vi", "hl", "clear", "shared")]
+        if level == "J":  # reduced keys plus the characters the private maps bind
+            return [["key", k] for k in [*KEYS_RED, *VI_KEYS]]
+        full = level in ("F", "X")
         ops = [["key", k] for k in (KEYS_FULL if full else KEYS_RED)]
+        if self.cmap_touched or level == "X":
+            ops += [["key", k] for k in VI_KEYS]
+        if level == "X":  # extended full alphabet (random histories over decorated leaves): private command maps as well
+            ops += [["cmap", n.cid, v] for n in self.containers() if n.kind in CMAP_KINDS for v in ("vi", "hl", "clear", "shared")]
         if not full and any(n.kind == "ListBox" for n in self.containers()):
             ops += [["key", "page down"], ["key", "end"]]
         if self.mode == "A" and self.text:
@@ -1096,7 +1249,7 @@ class H:
             else:
                 inv = [0, 2, None, "body", [1]] if full else [0]
             ops += [["setfocus", n.cid, v] for v in inv]
-            ops += self.gen_edits(n, full)
+            ops += self.gen_edits(n, full, deco=level == "X")
         # focus paths: every root-to-leaf path of the reference tree, plus invalid continuations
         if not self.root.is_leaf():
             paths = []
@@ -1127,7 +1280,7 @@ class H:
         focus_position assignment on every container and set_focus_path of every root-to-leaf path (and of every proper
         prefix that ends at a container); 's': the focus_position assignments only."""
         if level == "K":
-            return [["key", k] for k in KEYS_FULL]
+            return [["key", k] for k in KEYS_FULL] + ([["key", k] for k in VI_KEYS] if self.cmap_touched else [])
         if level == "k":
             return [["key", k] for k in ("down", "page down", "end")]
         ops = []
@@ -1147,9 +1300,16 @@ class H:
         walk(self.root, [])
         return ops + ([["setpath", p] for p in paths] if level == "S" else [])
 
-    def gen_edits(self, n, full):
+    def gen_edits(self, n, full, deco=False):
         out = []
         e = ["edit", n.cid]
+        if deco and n.kind in LIST_KINDS:
+            nk = len(n.kids)
+            if nk < MAX_KIDS:
+                out += [[*e, "ins", 0, "D"], [*e, "ins", nk, "W"], [*e, "ins", nk, "A"]]
+            if nk:
+                out += [[*e, "set", nk - 1, "D"], [*e, "set", 0, "A"], [*e, "slice", 0, nk, ["W", "D"]]]
+            out += [[*e, "assign", ["D", "A"]], [*e, "assign", ["W"]]]
         if n.kind in LIST_KINDS:
             nk = len(n.kids)
             try:
@@ -1257,17 +1417,68 @@ def depth3_trees():
     return out
 
 
-def random_tree(r, depth):
+def decorated_trees():
+    """Flat Pile / Columns / GridFlow / ListBox over 1-3 leaves with at least one decorated leaf: every arrangement of
+    1-3 leaves from {S, U, D} with a D (the decoration switches selectable off); every arrangement of 1-2 leaves from
+    {S, U, W} with a W (... also below another decoration) and from {S, D, A} with an A (a decorated leaf that stays
+    selectable), and three arrangements of 3 leaves for each of W and A."""
+    combos = []
+    for alpha, must, upto in (("SUD", "D", 3), ("SUW", "W", 2), ("SDA", "A", 2)):
+        for n in range(1, upto + 1):
+            for c in itertools.product(alpha, repeat=n):
+                if must in c and list(c) not in combos:
+                    combos.append(list(c))
+    combos += [list(c) for c in ("SWS", "WSU", "UWS", "SDA", "ADS", "DAD")]
+    out = []
+    for kind in ("Pile", "Columns", "GridFlow"):
+        out += [[kind, c] for c in combos]
+    out += [["ListBox", "F", c] for c in combos]
+    return out
+
+
+# decorated leaves one level down (the demo of a container inside the focus of another), and next to containers
+DECO_NESTED = [
+    ["Pile", ["U", ["Columns", ["S", "D"]]]],
+    ["Pile", [["Columns", ["D", "S", "W"]], "S"]],
+    ["Columns", [["Pile", ["S", "D", "S"]], "D", "S"]],
+    ["Columns", ["W", ["Pile", ["D", "A"]]]],
+    ["GridFlow", ["D", ["Pile", ["S", "W"]], "S"]],
+    ["ListBox", "F", ["D", ["Columns", ["S", "D", "A"]], "S"]],
+    ["Frame", ["Columns", ["S", "D", "S"]], "D", ["Pile", ["W", "S"]]],
+    ["Frame", "D", ["Columns", ["D", "S"]], None],
+    ["Overlay", ["Pile", ["S", "D", "A"]]],
+    ["Overlay", "D"],
+]
+
+# nestings for the private-command-map histories: two containers that read key bindings side by side / inside one another
+CMAP_FLAT = [
+    ["Pile", ["S", "S"]], ["Pile", ["S", "U", "S"]], ["Pile", ["U", "S"]], ["Pile", []],
+    ["Columns", ["S", "S"]], ["Columns", ["S", "U", "S"]], ["Columns", ["D", "S"]],
+    ["ListBox", "F", ["S", "S"]], ["ListBox", "L", ["S", "U", "S"]],
+]
+CMAP_NESTED = [
+    ["Columns", [["Pile", ["S", "S"]], ["Pile", ["S", "S"]]]],
+    ["Pile", [["Columns", ["S", "S"]], ["Columns", ["S", "U", "S"]]]],
+    ["Pile", ["S", ["Pile", ["S", "S"]], "S"]],
+    ["Columns", [["ListBox", "F", ["S", "S"]], ["Pile", ["S", "S"]]]],
+    ["Frame", ["Pile", ["S", "S"]], ["Columns", ["S", "S"]], None],
+    ["Overlay", ["Pile", ["S", ["Columns", ["S", "S"]]]]],
+    ["GridFlow", [["Pile", ["S", "S"]], "S"]],
+    ["ListBox", "F", [["Columns", ["S", "S"]], "S", ["Pile", ["S", "S"]]]],
+]
+
+
+def random_tree(r, depth, leaves=("S", "S", "U", "U", "E")):
     if depth == 0 or r.random() < 0.25:
-        return r.choice(["S", "S", "U", "U", "E"])
+        return r.choice(list(leaves))
     kind = r.choice(["Pile", "Columns", "GridFlow", "ListBox", "Frame", "Overlay"])
     if kind in ("Pile", "Columns", "GridFlow"):
-        return [kind, [random_tree(r, depth - 1) for _ in range(r.randint(0, 3))]]
+        return [kind, [random_tree(r, depth - 1, leaves) for _ in range(r.randint(0, 3))]]
     if kind == "ListBox":
-        return [kind, r.choice("FL"), [random_tree(r, depth - 1) for _ in range(r.randint(0, 3))]]
+        return [kind, r.choice("FL"), [random_tree(r, depth - 1, leaves) for _ in range(r.randint(0, 3))]]
     if kind == "Frame":
-        return [kind, random_tree(r, depth - 1), random_tree(r, depth - 1) if r.random() < 0.6 else None, random_tree(r, depth - 1) if r.random() < 0.6 else None]
-    return [kind, random_tree(r, depth - 1)]
+        return [kind, random_tree(r, depth - 1, leaves), random_tree(r, depth - 1, leaves) if r.random() < 0.6 else None, random_tree(r, depth - 1, leaves) if r.random() < 0.6 else None]
+    return [kind, random_tree(r, depth - 1, leaves)]
 
 
 # ----------------------------------------------------------------------------------------------
@@ -1357,11 +1568,13 @@ def _task(t):
         if kind == "explore":
             _k, tree, mode, levels = t
             n = explore(acc, tree, mode, levels)
-        elif kind == "random":
+        elif kind in ("random", "randomx"):
             _k, sd, ntrees, nhist, length = t
             r = rng(sd)
+            # "randomx": decorated leaves among the leaves, private command maps and j/k among the operations
+            alphabet = "F" if kind == "random" else "X"
             for _ in range(ntrees):
-                tree = random_tree(r, 3)
+                tree = random_tree(r, 3) if kind == "random" else random_tree(r, 3, ("S", "S", "U", "E", "D", "D", "W", "A"))
                 if isinstance(tree, str):
                     continue
                 for _h in range(nhist):
@@ -1374,7 +1587,7 @@ def _task(t):
                         n += 1
                         if not done:
                             break
-                        cand = h.gen_ops("F")
+                        cand = h.gen_ops(alphabet)
                         # bias towards keys and clicks, which are few among the candidates
                         heads = [c for c in cand if c[0] in ("key", "click")]
                         ops = [*ops, r.choice(heads) if heads and r.random() < 0.45 else r.choice(cand)]
@@ -1445,12 +1658,13 @@ def _tasks(tier, seed):
     """(task, estimated cost) list and the bound description."""
     tasks = []
     flat, small, nested, d3 = flat_trees(), _small_flat(), nested_trees(), depth3_trees()
+    deco = decorated_trees()
 
     def ex(tree, mode, levels):
         size = len(json.dumps(tree)) // 20
         cost = 1
         for lvl in levels:
-            cost *= {"F": 60 + 25 * size, "R": 28 + 8 * size, "O": 10 + size, "K": 10, "k": 3, "S": 6 + 6 * size, "s": 3 + 3 * size}[lvl]
+            cost *= {"F": 60 + 25 * size, "X": 80 + 30 * size, "R": 28 + 8 * size, "O": 10 + size, "K": 10, "J": 8, "k": 3, "S": 6 + 6 * size, "s": 3 + 3 * size, "M": 4 + 4 * size}[lvl]
         tasks.append((("explore", tree, mode, levels), cost * (1 + size)))
 
     if tier == "quick":
@@ -1478,11 +1692,37 @@ def _tasks(tier, seed):
             ex(t, "AB"[i % 2], "SK")
         for i in range(16):
             tasks.append((("random", seed * 1000 + i, 3, 3, 4), 2000))
+        for i, t in enumerate(deco):
+            if len(t[-1]) <= 2:
+                ex(t, "AB"[i % 2], "X")
+            else:
+                ex(t, "A", "O")
+            ex(t, "BA"[i % 2], "sK")
+        for i, t in enumerate(DECO_NESTED):
+            ex(t, "AB"[i % 2], "X")
+            ex(t, "BA"[i % 2], "SK")
+        for i, t in enumerate(CMAP_FLAT):
+            for mode in "AB":
+                ex(t, mode, "MJ")
+            ex(t, "AB"[i % 2], "MsJ")
+        for i, t in enumerate(CMAP_NESTED):
+            for mode in "AB":
+                ex(t, mode, "MJ")
+            if i < 2:
+                ex(t, "AB"[i % 2], "MsJ")
+            if i == 0:
+                ex(t, "B", "MMJ")
+        for i, t in enumerate(nested[::9]):
+            ex(t, "AB"[i % 2], "MJ")
+        for i in range(8):
+            tasks.append((("randomx", seed * 1000 + 500 + i, 3, 3, 4), 2000))
         bound = (
             f"{len(flat)} flat containers (0-3 leaves S/U; Frame with/without header/footer; Overlay): every single operation of the full alphabet, modes A and B; "
             f"{len(small)} of them (<=2 leaves) and {len(PAIRS)} two-level nestings: all histories of length 2 over the reduced alphabet, one mode each; "
             f"{len(nested)} two-level nestings (13 inner containers x 4 sibling patterns x 5 list containers, Frame parts, Overlay): every single operation (full alphabet for every fourth, reduced otherwise); "
-            f"{len(d3[::3])} three-level nestings: reduced single operations; {len(EXTRA)} hand-picked nestings: full single operations; {len(LONG)} nestings with a ListBox longer than its view (5-16 items, one-row and taller): every focus_position assignment / set_focus_path followed by every key, both modes, and a scrolling key (down, page down, end), a focus_position assignment and any key, one mode; {len(SQUEEZED)} Frames whose header + footer rows fill the frame (trimmed parts): every single operation of the full alphabet in both modes, every assignment followed by every key in one mode; 48 seeded random depth-3 trees x 3 histories of length 4 (non-exhaustive)"
+            f"{len(d3[::3])} three-level nestings: reduced single operations; {len(EXTRA)} hand-picked nestings: full single operations; {len(LONG)} nestings with a ListBox longer than its view (5-16 items, one-row and taller): every focus_position assignment / set_focus_path followed by every key, both modes, and a scrolling key (down, page down, end), a focus_position assignment and any key, one mode; {len(SQUEEZED)} Frames whose header + footer rows fill the frame (trimmed parts): every single operation of the full alphabet in both modes, every assignment followed by every key in one mode; 48 seeded random depth-3 trees x 3 histories of length 4 (non-exhaustive); "
+            f"{len(deco)} flat Pile/Columns/GridFlow/ListBox over 1-3 leaves with a decorated leaf (D = WidgetDisable(selectable), W = AttrMap(WidgetDisable(selectable)): unselectable children with a selectable base_widget; A = AttrMap(selectable)) and {len(DECO_NESTED)} nestings with such leaves: every single operation of the extended alphabet (full alphabet + j/k + private command maps + edits inserting D/W/A) in one mode (3-leaf flat ones: keys and clicks only), every focus_position assignment followed by every key in the other mode; "
+            f"private command maps (cmap: one Pile/Columns/ListBox gets w._command_map.copy(), variants vi / hl / clear edit the copy, shared edits the shared map instead): {len(CMAP_FLAT)} flat and {len(CMAP_NESTED)} two-container nestings: cmap then every reduced key or j/k in both modes; the flat ones and two nestings: cmap + focus_position assignment + key in one mode; one nesting: two cmaps + key; every ninth two-level nesting ({len(nested[::9])}): cmap + key; 24 seeded random depth-3 trees over leaves S/U/E/D/W/A x 3 histories of length 4 over the extended alphabet (non-exhaustive)"
         )
     else:
         for t in flat:
@@ -1518,11 +1758,29 @@ def _tasks(tier, seed):
                 ex(t, mode, "SK")
         for i in range(48):
             tasks.append((("random", seed * 1000 + i, 10, 5, 6), 10**6))
+        for i, t in enumerate(deco):
+            for mode in "AB":
+                ex(t, mode, "XR" if len(t[-1]) <= 2 else "X")
+                ex(t, mode, "sK")
+        for i, t in enumerate(DECO_NESTED):
+            for mode in "AB":
+                ex(t, mode, "XR")
+                ex(t, mode, "SK")
+        for i, t in enumerate(CMAP_FLAT + CMAP_NESTED):
+            for mode in "AB":
+                ex(t, mode, "MsJ")
+                ex(t, mode, "MMJ")
+            ex(t, "AB"[i % 2], "MR")
+        for i, t in enumerate(nested):
+            ex(t, "AB"[i % 2], "MJ")
+        for i in range(24):
+            tasks.append((("randomx", seed * 1000 + 500 + i, 10, 5, 6), 10**6))
         bound = (
             f"{len(flat)} flat containers (0-3 leaves S/U; Frame parts; Overlay): all histories of length <=2 (full alphabet, then reduced), modes A and B; "
             f"{len(small)} of them (<=2 leaves): all histories of two reduced-alphabet operations followed by one key or click, one mode each; {len(PAIRS)} two-level nestings: length <=2 (full, reduced), both modes; "
             f"{len(nested)} two-level nestings: every single operation of the full alphabet in both modes, every third one also every reduced operation followed by a key or click; "
-            f"{len(d3)} three-level nestings: single operations (full) in both modes, every fourth also reduced operation + key/click; {len(EXTRA)} hand-picked nestings: length <=2; {len(LONG)} nestings with a ListBox longer than its view: scrolling key + assignment + key in both modes, any key + focus_position assignment + key and two focus_position assignments + key in one mode each; {len(SQUEEZED)} Frames with trimmed header/footer: length <=2 (full, reduced) in one mode, single operations (full) in the other, assignment + key in both; 480 seeded random depth-3 trees x 5 histories of length 6 (non-exhaustive)"
+            f"{len(d3)} three-level nestings: single operations (full) in both modes, every fourth also reduced operation + key/click; {len(EXTRA)} hand-picked nestings: length <=2; {len(LONG)} nestings with a ListBox longer than its view: scrolling key + assignment + key in both modes, any key + focus_position assignment + key and two focus_position assignments + key in one mode each; {len(SQUEEZED)} Frames with trimmed header/footer: length <=2 (full, reduced) in one mode, single operations (full) in the other, assignment + key in both; 480 seeded random depth-3 trees x 5 histories of length 6 (non-exhaustive); "
+            f"{len(deco)} flat containers with a decorated leaf (D/W unselectable with a selectable base_widget, A selectable) and {len(DECO_NESTED)} nestings with such leaves: extended-alphabet operation (+ a reduced one for <=2 leaves and the nestings), and every assignment + key, both modes; private command maps on {len(CMAP_FLAT) + len(CMAP_NESTED)} trees: cmap + assignment + key and two cmaps + key in both modes, cmap + any reduced operation in one; every two-level nesting: cmap + key; 240 seeded random depth-3 trees over S/U/E/D/W/A x 5 histories of length 6, extended alphabet (non-exhaustive)"
         )
     return tasks, bound
 
